@@ -172,3 +172,27 @@ def elt_to_oracle(F, a):
     if isinstance(F, PrimeField):
         return int(v) % F.p
     return F.from_int(int(v))
+
+
+def _is_probable_prime(n):
+    """Deterministic Miller-Rabin for n < 3.3e24 (bases 2..37), probabilistic beyond."""
+    if n < 2:
+        return False
+    for p in (2, 3, 5, 7, 11, 13, 17, 19, 23, 29, 31, 37):
+        if n % p == 0:
+            return n == p
+    d, s = n - 1, 0
+    while d % 2 == 0:
+        d //= 2
+        s += 1
+    for a in (2, 3, 5, 7, 11, 13, 17, 19, 23, 29, 31, 37):
+        x = pow(a, d, n)
+        if x in (1, n - 1):
+            continue
+        for _ in range(s - 1):
+            x = x * x % n
+            if x == n - 1:
+                break
+        else:
+            return False
+    return True
